@@ -47,6 +47,12 @@ def gen_constants():
     g = os.path.join(ROOT, "tools", "gen_constants.py")
     if os.path.exists(g):
         rc, out = sh([sys.executable, g], cwd=ROOT, timeout=120)
+        if rc != 0:
+            return False, out[-2000:]
+    # function translator: pure integer functions of the Rust sources -> Generated/Functions.lean (tools/gen_functions.py)
+    g2 = os.path.join(ROOT, "tools", "gen_functions.py")
+    if os.path.exists(g2):
+        rc, out = sh([sys.executable, g2], cwd=ROOT, timeout=120)
         return rc == 0, out[-2000:]
     return True, ""
 
@@ -302,7 +308,7 @@ def main():
         ok_l, log_l = build_lean(mods)
         P_fail = []
         if not ok_c:
-            P_fail.append("constants translator failed: " + log_c[-500:])
+            P_fail.append("constants / function translator failed: " + log_c[-500:])
         if not ok_l:
             # which module? try building only the driver to see whether the correspondence can still run
             ok_d, _ = build_lean([])
